@@ -14,6 +14,7 @@ REGISTRY = {
     "C02": "matching",
     "C03": "passfail",
     "C04": "ap",
+    "C09": "heading",
     "C10": "filtering",
     "C14": "labels",
     "C15": "config",
